@@ -89,6 +89,9 @@ def run(tier, seed):
                         f.write(json.dumps(c) + '\n')
                 env = {'TSAN_OPTIONS': 'halt_on_error=0:exitcode=66:history_size=4:log_path=%s' % os.path.join(wd, 'tsan')}
                 rc, out, err, to = runner.run_tool(exe, ['mt', cf_path, wd, os.path.join(wd, 'results.jsonl'), str(threads), str(seed * 131 + run_i)], env=env, timeout=1200)
+                um = re.search(r'^UMASK (\d+) (\d+)$', out, re.M)
+                if um and um.group(1) != um.group(2):
+                    vs.append(Violation(PROP, '%s:process-state:umask' % PROP, 'the process umask changed from %s to %s during a run with %d thread(s)' % (um.group(1), um.group(2), threads), {'run': run_i, 'threads': threads}))
                 if to:
                     vs.append(Violation(PROP, '%s:hang:threads-%d' % (PROP, threads), 'threaded run did not finish', {'run': run_i, 'threads': threads}))
                 elif rc not in (0, 66):
